@@ -194,7 +194,8 @@ void h_tracer_program(void) {
         } else if (op == 'C' && !slot[s]) {
             size_t num = nd_size(), z = nd_size();
 #if WCFG == 0
-            ASSUME(num >= 1 && num <= 3 && z >= 1 && z <= 0xffffu); z <<= SHIFT; /* element count 1..3: the three 64x64 multiplications of (num, size) along the path are then cheap for SAT; element size up to 2^60 */
+            ASSUME(num >= 1 && num <= 3 && z >= 1 && z <= 0xffffu); z <<= SHIFT;
+            ASSUME(num == 1 || z <= (SIZE_MAX >> 2)); /* API precondition: the product fits (aws_mem_calloc aborts otherwise); num <= 3 */ /* element count 1..3: the three 64x64 multiplications of (num, size) along the path are then cheap for SAT; element size up to 2^60 */
 #else
             ASSUME(num >= 1 && z >= 1 && num <= BLK && z <= BLK && num * z <= BLK);
 #endif
